@@ -147,7 +147,7 @@ def run(ctx, impl_only=False):
     # shifted lists: an insert/delete early on, then a replacement (possibly of another type) later: the difflib pass wins
     for _ in range(n // 3):
         L = ctx.rng.randint(6, 11)
-        base = ctx.rng.sample([10, 20, 30, 40, 50, 60, 70, 80, 'a', 'b', 'c', 'd', 'e', 1.5, 2.5, None], L)
+        base = ctx.rng.sample([10, 20, 30, 40, 50, 60, 70, 80, 'a', 'b', 'c', 'd', 'e', 1.5, 2.5, None, 'line one\nline two', 'p\nq\nr', 'tail\n'], L)
         t2 = list(base)
         k = ctx.rng.randint(0, 2)
         if ctx.rng.random() < 0.5:
@@ -156,7 +156,7 @@ def run(ctx, impl_only=False):
             t2[k:k] = [ctx.rng.choice(['new', 99, 0.5]) for _ in range(ctx.rng.randint(1, 2))]
         for _ in range(ctx.rng.randint(1, 2)):
             j = ctx.rng.randint(len(t2) // 2, len(t2) - 1)
-            t2[j] = ctx.rng.choice(['fifty', 55, 5.5, None, 'x', 7])
+            t2[j] = ctx.rng.choice(['fifty', 55, 5.5, None, 'x', 7, 'line one\nline 2', 'p\nq', 'multi\nline\ntext'])
         if ctx.rng.random() < 0.3:
             pairs.append(({'rows': base, 'n': 1}, {'rows': t2, 'n': 1}))
         else:
